@@ -205,6 +205,7 @@ def main():
     run.stubs = ['leggauss_quad -> symbolic points/weights', 'laminate.read_stack -> symbolic ABD']
     run.outside = ['assemblies with penalty connections (decided under C12/C13 once claimed)', 'orders above the bound', 'floating point']
     res = pmap(kprop.job, [(__name__, c) for c in cf])
+    res = kprop.explore_loci(__name__, res, run)      # second pass: the equality loci the executed code branched on
     kprop.handle(run, res, build, 'entries violate the gradient/Jacobian identity')
     return run.finish()
 
